@@ -5,7 +5,7 @@ scratch directory and judges what it left behind. Prints one JSON object on stdo
 
 usage: cell.py <scenario.json> <rdest-binary> <workdir>
 """
-import asyncio, hashlib, json, os, random, struct, subprocess, sys, time
+import asyncio, socket, hashlib, json, os, random, struct, subprocess, sys, time
 
 PROTO = b"BitTorrent protocol"
 
@@ -48,6 +48,11 @@ class World:
         self.handshakes_bad = 0
         self.bytes_moved = 0
         self.hostile = []
+        self.closed_by_client = []
+        self.conn_life = []
+        self.good_replies = 0
+        self.contacted = set()
+        self.peer_last_sent = {}
 
     def note(self, *a):
         self.last_activity = time.time()
@@ -89,11 +94,41 @@ async def tracker(w, reader, writer):
         elif kind == "failure":
             body = benc({b"failure reason": b"torrent not registered"})
         else:
-            peers = [{b"ip": b"127.0.0.1", b"peer id": p["id"].encode(), b"port": p["port"]} for p in w.sc["peers"] if not p["incoming"]]
+            peers = [{b"ip": p.get("host", "127.0.0.1").encode(), b"peer id": p["id"].encode(), b"port": p["port"]} for p in w.sc["peers"] if not p["incoming"]]
             body = benc({b"interval": 1800, b"peers": peers})
             if "info_hash=" not in line or "peer_id=" not in line or "port=6881" not in line:
                 w.note("BAD announce line", line)
-        writer.write(b"HTTP/1.1 200 OK\r\nContent-Length: %d\r\nConnection: close\r\n\r\n" % len(body) + body)
+        mode = w.sc.get("tracker_delivery", "whole")
+        if kind == "good":
+            w.good_replies += 1
+        if mode == "whole":
+            writer.write(b"HTTP/1.1 200 OK\r\nContent-Length: %d\r\nConnection: close\r\n\r\n" % len(body) + body)
+        else:
+            # the same reply in several TCP segments (Nagle off, a pause between writes)
+            try:
+                writer.get_extra_info("socket").setsockopt(socket.IPPROTO_TCP, socket.TCP_NODELAY, 1)
+            except Exception:
+                pass
+            cuts = sorted(set([0, len(body)] + [max(1, min(len(body) - 1, c)) for c in (len(body) // 3, 2 * len(body) // 3, 7)])) if len(body) > 1 else [0, len(body)]
+            parts = [body[a:b] for a, b in zip(cuts, cuts[1:])]
+            try:
+                if mode == "chunked":
+                    writer.write(b"HTTP/1.1 200 OK\r\nTransfer-Encoding: chunked\r\nConnection: close\r\n\r\n")
+                    await writer.drain()
+                    for part in parts:
+                        await asyncio.sleep(0.03)
+                        writer.write(b"%x\r\n" % len(part) + part + b"\r\n")
+                        await writer.drain()
+                    writer.write(b"0\r\n\r\n")
+                else:
+                    writer.write(b"HTTP/1.1 200 OK\r\nContent-Length: %d\r\nConnection: close\r\n\r\n" % len(body))
+                    await writer.drain()
+                    for part in parts:
+                        await asyncio.sleep(0.03)
+                        writer.write(part)
+                        await writer.drain()
+            except Exception:
+                pass
     try:
         await writer.drain()
     except Exception:
@@ -157,6 +192,38 @@ async def hostile(w, p, reader, writer, we_connect):
         await asyncio.wait_for(reader.readexactly(68), 30)
         if not we_connect:
             await send(w, writer, my_hs, 0)
+        if p["kind"] == "silent":
+            # says nothing more (or only keep-alives); notes the client's keep-alives and when it hangs up
+            t_conn = time.time()
+            rec["keepalives_from_client_at_s"] = []
+            bf = bytes((len(w.pieces) + 7) // 8)
+            await send(w, writer, struct.pack(">IB", 1 + len(bf), 5) + bf, 0)
+            t_last = time.time()
+            ka_every = p.get("keepalive_every_s")
+            next_ka = t_last + ka_every if ka_every else None
+            while True:
+                left = t_conn + p.get("give_up_s", 380) - time.time()
+                if left <= 0:
+                    rec["waited_s"] = round(time.time() - t_last, 1)
+                    break
+                tmo = min(left, max(0.01, next_ka - time.time())) if next_ka else left
+                try:
+                    hdr = await asyncio.wait_for(reader.readexactly(4), tmo)
+                except asyncio.TimeoutError:
+                    if next_ka and time.time() >= next_ka:
+                        await send(w, writer, bytes(4), 0)
+                        next_ka += ka_every
+                    continue
+                except (asyncio.IncompleteReadError, ConnectionError, OSError):
+                    rec["closed_after_s"] = round(time.time() - t_last, 1)
+                    w.note("silent", p["port"], "closed by client after", rec["closed_after_s"])
+                    break
+                ln = struct.unpack(">I", hdr)[0]
+                if ln == 0:
+                    rec["keepalives_from_client_at_s"].append(round(time.time() - t_conn, 1))
+                else:
+                    await reader.readexactly(ln)
+            return
         dr = asyncio.create_task(drain())
         for k, st in enumerate(p["script"]):
             if dr.done():
@@ -194,18 +261,30 @@ async def hostile(w, p, reader, writer, we_connect):
 
 async def seeder(w, p, reader, writer, we_connect):
     """Honest (or corrupting) seeder persona over real TCP."""
-    if p.get("kind"):
+    if not we_connect:
+        w.contacted.add(p["port"])
+    if p.get("kind") and p["kind"] != "visitor":
         return await hostile(w, p, reader, writer, we_connect)
     rnd = random.Random(p["seed"])
     noise = p.get("noise_permille", 0)
+    life = {"port": p["port"], "t0": time.time(), "keepalives_at_s": []}
+    w.conn_life.append(life)
     n = len(w.pieces)
     have = p["have"]
     chunk = p.get("chunk", 0)
     my_hs = bytes([19]) + PROTO + bytes(8) + w.info_hash + p["id"].encode()
     try:
         if we_connect:
+            if p.get("handshake_delay_ms"):
+                await asyncio.sleep(p["handshake_delay_ms"] / 1000)
             await send(w, writer, my_hs, chunk)
         hs = await asyncio.wait_for(reader.readexactly(68), 30)
+        if p.get("kind") == "visitor":
+            await send(w, writer, struct.pack(">IB", 1 + (n + 7) // 8, 5) + bytes((n + 7) // 8), 0)
+            await asyncio.sleep(p.get("linger_ms", 100) / 1000)
+            w.hostile.append({"port": p["port"], "kind": "visitor", "expect_close": False, "done": True})
+            w.note("visitor", p["port"], "leaves")
+            return
         if hs[1:20] == PROTO and hs[28:48] == w.info_hash:
             w.handshakes_ok += 1
         else:
@@ -224,8 +303,11 @@ async def seeder(w, p, reader, writer, we_connect):
         served = 0
         choked_once = False
         while True:
-            mid, body = await asyncio.wait_for(read_msg(reader), 60)
+            mid, body = await asyncio.wait_for(read_msg(reader), max(60, p.get("latency_ms", 0) / 1000 * 3 + 200))
             w.last_activity = time.time()
+            if mid is None:
+                life["keepalives_at_s"].append(round(time.time() - life["t0"], 1))
+                continue
             if mid == 6:
                 idx, beg, ln = struct.unpack(">III", body)
                 if idx >= n or not have[idx] or beg + ln > len(w.pieces[idx]):
@@ -237,7 +319,13 @@ async def seeder(w, p, reader, writer, we_connect):
                     k = rnd.randrange(len(blk))
                     blk = blk[:k] + bytes([blk[k] ^ 0x10]) + blk[k + 1:]
                     w.note("peer", p["port"], "corrupts block", idx, beg)
-                msg = noise_frames(rnd, noise) + struct.pack(">IBII", 9 + len(blk), 7, idx, beg) + blk
+                label = beg
+                if p.get("swap_labels") and ln == 16384 and beg in (0, 16384) and len(w.pieces[idx]) >= 32768:
+                    # right bytes under the other block's offset: the two answers, taken in arrival
+                    # order, still concatenate to the true piece, but not when placed by offset
+                    label = 16384 - beg
+                    w.note("peer", p["port"], "mislabels block", idx, beg, "as", label)
+                msg = noise_frames(rnd, noise) + struct.pack(">IBII", 9 + len(blk), 7, idx, label) + blk
                 d = p.get("disconnect_after_blocks")
                 if d is not None and served >= d:
                     if p.get("mid_frame"):
@@ -246,6 +334,7 @@ async def seeder(w, p, reader, writer, we_connect):
                     writer.close()
                     return
                 await send(w, writer, msg, chunk)
+                w.peer_last_sent[p["port"]] = time.time()
                 served += 1
                 c = p.get("choke_after_blocks")
                 if c is not None and served >= c and not choked_once:
@@ -253,9 +342,14 @@ async def seeder(w, p, reader, writer, we_connect):
                     await send(w, writer, struct.pack(">IB", 1, 0), chunk)
                     await asyncio.sleep(p.get("choke_ms", 200) / 1000)
                     await send(w, writer, struct.pack(">IB", 1, 1), chunk)
-    except (asyncio.IncompleteReadError, ConnectionError, asyncio.TimeoutError, OSError):
+    except (asyncio.IncompleteReadError, ConnectionError, OSError) as e:
+        # the client closed (or reset) this connection
+        w.closed_by_client.append({"port": p["port"], "at_s": round(time.time() - T0, 2), "served_blocks": locals().get("served", 0), "owed_blocks": sum((len(w.pieces[i]) + 16383) // 16384 for i in range(n) if have[i]), "s_since_our_last_message": round(time.time() - w.peer_last_sent.get(p["port"], T0), 2), "how": type(e).__name__})
+        w.note("peer", p["port"], "connection closed by the client")
+    except asyncio.TimeoutError:
         pass
     finally:
+        life["lived_s"] = round(time.time() - life["t0"], 1)
         try:
             writer.close()
         except Exception:
@@ -291,7 +385,22 @@ async def main():
     os.makedirs(work, exist_ok=True)
     subprocess.run(["ip", "link", "set", "lo", "up"], stdout=subprocess.DEVNULL, stderr=subprocess.DEVNULL)
     w = World(sc)
-    open(os.path.join(work, "t.torrent"), "wb").write(w.torrent)
+    rel = sc.get("torrent_rel", "t.torrent")
+    cell = os.path.dirname(os.path.abspath(work))
+    if rel.startswith("ABS:"):
+        tpath = os.path.join(cell, rel[4:])
+        targ = tpath
+    else:
+        tpath = os.path.normpath(os.path.join(os.path.abspath(work), rel))
+        targ = rel
+    os.makedirs(os.path.dirname(tpath), exist_ok=True)
+    if not rel.startswith("ABS:"):
+        # every directory the un-normalised path walks through has to exist
+        acc = os.path.abspath(work)
+        for comp in os.path.dirname(rel).split("/"):
+            acc = os.path.join(acc, comp)
+            os.makedirs(os.path.normpath(acc), exist_ok=True)
+    open(tpath, "wb").write(w.torrent)
     servers = [await asyncio.start_server(lambda r, wr: tracker(w, r, wr), "127.0.0.1", sc["tracker_port"])]
     for p in sc["peers"]:
         if not p["incoming"] and not p.get("dead"):
@@ -299,7 +408,7 @@ async def main():
     out = open(os.path.join(work, "stdout.txt"), "wb")
     env = dict(os.environ)
     env.update(sc.get("env", {}))
-    proc = await asyncio.create_subprocess_exec(binary, "get", "t.torrent", cwd=work, stdout=out, stderr=subprocess.STDOUT, env=env)
+    proc = await asyncio.create_subprocess_exec(binary, "get", targ, cwd=work, stdout=out, stderr=subprocess.STDOUT, env=env)
     tasks = [asyncio.create_task(incoming_peer(w, p)) for p in sc["peers"] if p["incoming"]]
     expected = w.expected_files()
     verdict, detail = None, ""
@@ -328,7 +437,7 @@ async def main():
             complete_since = complete_since or now
             nh = sum(1 for p in sc["peers"] if p.get("kind"))
             ports = set(p["port"] for p in sc["peers"] if p.get("kind"))
-            if ports <= set(h["port"] for h in w.hostile if h.get("done")) or now - complete_since > 14:
+            if ports <= set(h["port"] for h in w.hostile if h.get("done")) or now - complete_since > sc.get("wait_hostile_s", 14):
                 verdict = "complete"
                 break
             continue  # download done, waiting for the hostile connections' outcome
@@ -344,6 +453,10 @@ async def main():
                 idle_since = None
         if idle_since and now - idle_since >= sc.get("stall_s", 15):
             verdict, detail = "stalled", "no socket activity, no tracker request and < 50 ms CPU for %d s" % sc.get("stall_s", 15)
+            break
+        never = [p["port"] for p in sc["peers"] if not p["incoming"] and not p.get("dead") and p["port"] not in w.contacted]
+        if w.good_replies >= 8 and never:
+            verdict, detail = "listed-peer-never-contacted", "%d good tracker replies were delivered, the download is not complete, and the listed peer(s) %s (%s) were never dialled" % (w.good_replies, never, [p.get("host", "127.0.0.1") for p in sc["peers"] if p["port"] in never])
             break
         if now - t_start > sc.get("timeout_s", 90):
             verdict, detail = "timeout", "wall clock limit without idle evidence"
@@ -366,13 +479,13 @@ async def main():
     # judge the directory
     problems = []
     piece_files = [f for f in os.listdir(work) if f.endswith(".piece")]
-    known = {h.hex().upper() + ".piece": i for i, h in enumerate(w.hashes)}
+    # how the client names its piece files is its own business: a stored piece is judged by content
+    by_hash = {h: i for i, h in enumerate(w.hashes)}
     for f in piece_files:
         data = open(os.path.join(work, f), "rb").read()
-        if f not in known:
-            problems.append("piece file %s is not a piece of this torrent" % f)
-        elif hashlib.sha1(data).digest() != w.hashes[known[f]] or data != w.pieces[known[f]]:
-            problems.append("piece file %s does not hash to its name" % f)
+        i = by_hash.get(hashlib.sha1(data).digest())
+        if i is None or data != w.pieces[i]:
+            problems.append("stored piece file %s (%d bytes) is not a verified piece of this torrent" % (f, len(data)))
     stdout = open(os.path.join(work, "stdout.txt"), "rb").read().decode("utf8", "replace")
     panics = [l for l in stdout.splitlines() if "panicked at" in l or "RUST_BACKTRACE" in l][:3]
     san = [l for l in stdout.splitlines() if "AddressSanitizer" in l or "ERROR: " in l and "Sanitizer" in l][:3]
@@ -382,15 +495,27 @@ async def main():
         for root, _, files in os.walk(work):
             for f in files:
                 rel = os.path.relpath(os.path.join(root, f), work)
-                if rel in listed or rel.endswith(".piece") or rel in ("t.torrent", "stdout.txt"):
+                if rel in listed or rel.endswith(".piece") or rel in ("t.torrent", "stdout.txt") or os.path.abspath(os.path.join(root, f)) == os.path.abspath(tpath):
                     continue
                 extra.append(rel)
+    outside = []
+    for root, _, files in os.walk(cell):
+        if os.path.abspath(root) == os.path.abspath(work) or os.path.abspath(root).startswith(os.path.abspath(work) + os.sep):
+            continue
+        for f in files:
+            pth = os.path.join(root, f)
+            if os.path.abspath(pth) == os.path.abspath(tpath) or f == "scenario.json":
+                continue
+            if f.endswith(".piece") or f.endswith(".tmp"):
+                continue  # download artefacts, not extraction output
+            outside.append(os.path.relpath(pth, cell))
     print(json.dumps({
+        "outside_start_dir": outside[:5], "complete_at_s": round(complete_since - T0, 2) if complete_since else None,
         "verdict": verdict, "detail": detail, "elapsed_s": round(time.time() - t_start, 2),
         "piece_files": len(piece_files), "pieces": len(w.pieces), "piece_problems": problems[:3],
         "panics": panics, "sanitizer": san, "unexpected_files": extra[:3],
         "tracker_requests": w.tracker_requests, "handshakes_ok": w.handshakes_ok, "handshakes_bad": w.handshakes_bad,
-        "bytes_moved": w.bytes_moved, "hostile": w.hostile, "peak_rss_kb": hwm, "log_tail": w.log[-25:], "stdout_tail": stdout[-600:],
+        "bytes_moved": w.bytes_moved, "hostile": w.hostile, "closed_by_client": w.closed_by_client[:10], "conn_life": [dict(l, lived_s=l.get("lived_s", round(time.time() - l["t0"], 1)), t0=round(l["t0"] - T0, 2)) for l in w.conn_life[:10]], "peak_rss_kb": hwm, "log_tail": w.log[-25:], "stdout_tail": stdout[-600:],
     }))
 
 
